@@ -1,4 +1,4 @@
 SPECIFICATION TSpec
-INVARIANTS EncT VerdictT TermT ReencodeT StreamT SplitT TypedT TypedIntT NoPanicT AllocT
+INVARIANTS EncT TypedValT VerdictT TermT ReencodeT StreamT SplitT TypedT TypedIntT NoPanicT AllocT
 POSTCONDITION TraceAccepted
 CHECK_DEADLOCK FALSE
